@@ -61,6 +61,10 @@ var c18Templates = []c18Template{
 	logT("tab_in_literal", " |= \"k=1\ttok\""),
 	logT("space_in_literal", ` |= "k=1 tok"`),
 	// a template function with a regex that differs from plan to plan (see Gen)
+	logT("label_format_app", ` | label_format app="{{ .container }}"`),
+	logT("label_format_ap", ` | label_format ap="p{{ .container }}"`),
+	logT("line_format_plain", ` | line_format "{{ .container }}"`),
+	logT("label_format_lin", ` | label_format lin="e{{ .container }}"`),
 	logT("regex_replace", ` | line_format "{{ regexReplaceAll \"c[0-9]+(q@)?\" __line__ \"N\" }}"`),
 	metT("count", "count_over_time(", ")"),
 	metT("bytes", "bytes_over_time(", ")"),
@@ -155,13 +159,18 @@ func (propC18) Gen(r *Rng, run uint64, tier string) *Plan {
 		spec.NMin, spec.NMax, spec.RecMax = 8, 24, 5
 	case x < 6:
 		spec.NMin, spec.NMax, spec.RecMax = 30, 70, 2
-	case x < 10:
-		spec.RecMax = 80
+	case x < 12:
+		spec.RecMax = 120
+		if r.Bool(0.5) {
+			// several hundred series in one step of an unwrap query
+			spec.NMin, spec.RecMin, spec.Msg = 3, 90, "logfmtk"
+			p.Tags["many_series"] = "1"
+		}
 	}
-	if r.Bool(0.25) {
+	if r.Bool(0.25) && p.Tags["many_series"] == "" {
 		spec.Msg = "token"
 	}
-	if r.Bool(0.2) {
+	if r.Bool(0.2) && p.Tags["many_series"] == "" {
 		// Repeated lines (one stream holds several entries) ...
 		spec.Msg = "const"
 	}
@@ -204,6 +213,9 @@ func (propC18) Gen(r *Rng, run uint64, tier string) *Plan {
 		if !(cli && tpl.metric) {
 			break
 		}
+	}
+	if p.Tags["many_series"] == "1" && !cli && r.Bool(0.6) {
+		tpl = c18TemplateByName([]string{"max_of_unwrap", "min_of_unwrap", "logfmt_unwrap", "sum_unwrap"}[r.Intn(4)])
 	}
 	selA, contA := genSelection(r.Sub("selA"), &p.World)
 	selB, contB := "", []*Container(nil)
